@@ -280,6 +280,7 @@ Definition step_rt (s : srt) (o : line) : srt * list bytes :=
     | None => (s, url_obs (r_url (rt s) (argb 2 o) (arg 3 o) ps))
     | Some f => (s, url_obs (f_url (rt s) f (argb 2 o) (arg 3 o) ps))
     end
+  else if beqb op (bs "c19eq") then (s, [bs "1"])     (* facade run == desugared run, observation by observation *)
   else if beqb op (bs "creq") then (s, creq_obs s o)
   else if beqb op (bs "script") then (s, script_obs s o)
   else if beqb op (bs "tracehelper") then
@@ -721,6 +722,7 @@ Definition oracle_all (s s' : srt) (o : line) (r : list bytes) : list bytes :=
    else if beqb op (bs "routes") then routes_clauses s r
    else if beqb op (bs "url") then url_clauses s o r
    else if beqb op (bs "handle") then handle_clauses s o r
+   else if beqb op (bs "c19eq") then check (obs_is r "1") "C19:facade-program-differs-from-its-desugaring"
    else if beqb op (bs "creq") then creq_clauses s o r
    else if beqb op (bs "script") then script_clauses s o r
    else if beqb op (bs "tracehelper") then tracehelper_clauses o r
